@@ -473,7 +473,39 @@ func (x *exec) loopPos(h *ssa.BasicBlock) int {
 // writeSet is the set of heaps a piece of code may modify (name -> sort); all = anything.
 type writeSet struct {
 	heaps map[string]*smt.Sort
+	// root heaps written only in cells the loop allocates itself (the per-iteration copies of range
+	// variables, temporaries): cells that exist before the loop keep their content (havocWrites)
+	fresh map[string]*smt.Sort
 	all   bool
+}
+
+func (w *writeSet) freshRoot(x *exec, t types.Type) {
+	if _, ok := t.Underlying().(*types.Array); ok {
+		w.root(x, t)
+		return
+	}
+	for _, lf := range x.env.rootLeaves(t) {
+		w.fresh[lf.name] = lf.sort
+	}
+}
+
+// allocRoot: the local cell a store address is rooted in (through field and array-element addresses).
+func allocRoot(addr ssa.Value) *ssa.Alloc {
+	for {
+		switch a := addr.(type) {
+		case *ssa.Alloc:
+			return a
+		case *ssa.FieldAddr:
+			addr = a.X
+		case *ssa.IndexAddr:
+			if _, isPtr := a.X.Type().Underlying().(*types.Pointer); !isPtr {
+				return nil
+			}
+			addr = a.X
+		default:
+			return nil
+		}
+	}
 }
 
 func (w *writeSet) root(x *exec, t types.Type) {
@@ -492,11 +524,15 @@ func (w *writeSet) arr(x *exec, elem types.Type) {
 
 // loopWrites computes which heaps the loop may modify.
 func (x *exec) loopWrites(h *ssa.BasicBlock) *writeSet {
-	w := &writeSet{heaps: map[string]*smt.Sort{}}
+	w := &writeSet{heaps: map[string]*smt.Sort{}, fresh: map[string]*smt.Sort{}}
 	for b := range x.loopBody[h] {
 		for _, in := range b.Instrs {
 			switch in := in.(type) {
 			case *ssa.Store:
+				if a := allocRoot(in.Addr); a != nil && x.loopBody[h][a.Block()] {
+					w.freshRoot(x, a.Type().(*types.Pointer).Elem())
+					continue
+				}
 				x.addWriteHeap(w, in.Addr)
 			case *ssa.MapUpdate:
 				if mk, isMake := in.Map.(*ssa.MakeMap); isMake && x.exactMap(mk) {
@@ -505,7 +541,7 @@ func (x *exec) loopWrites(h *ssa.BasicBlock) *writeSet {
 				w.all = true
 			case *ssa.Alloc:
 				w.heaps["next"] = smt.Int
-				w.root(x, in.Type().(*types.Pointer).Elem())
+				w.freshRoot(x, in.Type().(*types.Pointer).Elem())
 			case *ssa.MakeSlice:
 				w.heaps["next"] = smt.Int
 				w.heaps["allocated"] = BV64
@@ -522,7 +558,7 @@ func (x *exec) loopWrites(h *ssa.BasicBlock) *writeSet {
 					w.heaps["allocated"] = BV64
 				}
 			case *ssa.Call:
-				x.callWrites(w, &in.Call)
+				x.callWrites(w, &in.Call, in)
 			case *ssa.Defer, *ssa.Go, *ssa.Send, *ssa.Select:
 				w.all = true
 			}
@@ -578,7 +614,7 @@ func (x *exec) addWriteHeap(w *writeSet, addr ssa.Value) {
 }
 
 // callWrites adds the heaps a call may modify according to the callee's contract.
-func (x *exec) callWrites(w *writeSet, cc *ssa.CallCommon) {
+func (x *exec) callWrites(w *writeSet, cc *ssa.CallCommon, at ssa.Instruction) {
 	if b, ok := cc.Value.(*ssa.Builtin); ok {
 		switch b.Name() {
 		case "append":
@@ -603,6 +639,11 @@ func (x *exec) callWrites(w *writeSet, cc *ssa.CallCommon) {
 	callee := cc.StaticCallee()
 	if callee == nil && x.selfThroughCapture(cc.Value) {
 		callee = x.fn
+	}
+	if callee == nil {
+		if mc := closureThroughCell(cc.Value, at); mc != nil {
+			callee = mc.Fn.(*ssa.Function)
+		}
 	}
 	if callee == nil {
 		w.all = true
@@ -789,6 +830,19 @@ func (x *exec) havocWrites(st *pstate, w *writeSet, why string) {
 		st.heap["next"] = nv
 		st.assume(smt.IGe(nv, cur), "allocation only grows")
 		return
+	}
+	// Heaps written only in cells the loop allocates itself are not forgotten. At the head of an
+	// arbitrary iteration they differ from the heap at loop entry only in cells allocated by earlier
+	// iterations (allocation base >= next at entry). Everything known about the entry heap concerns
+	// cells that existed then, and those keep their content; the entry heap says nothing about the
+	// region above next, so continuing with it is the same as continuing with a heap that agrees
+	// with it below next and is arbitrary above. Pointers into that region can reach the body only
+	// through loop-carried values or written heaps, which are forgotten, and every cell the body
+	// allocates is initialised when it is allocated.
+	for name, srt := range w.fresh {
+		if _, also := w.heaps[name]; also || srt.Kind != smt.KArray {
+			w.heaps[name] = srt
+		}
 	}
 	for name, srt := range w.heaps {
 		cur := x.env.heapVar(st.heap, name, srt)
